@@ -41,6 +41,9 @@ FULL = gen.profile(
   p_priority=0.2,
   p_mocap=0.1,
   nuserdata=0,
+  p_poly=0.4,
+  p_actfrcrange=0.3,
+  p_surfacevel=0.25,
 )
 
 PROFILES = {
@@ -48,7 +51,7 @@ PROFILES = {
   # one tree with > 64 dofs: sparse LDL factorisation levels, sparse Jacobian
   "bigtree": gen.profile(nbody=(2, 4), big_tree=66, big_tree_branch=6, jacobians=("sparse",), p_limit=0.5, p_frictionloss=0.3, equality=1, eq_kinds=("joint", "connect"), solvers=("Newton", "CG"), p_armature=0.6),
   "free": gen.profile(
-    nbody=(3, 7), collide=True, contact_rich=True, p_plane=1.0, p_free=1.0, p_branch=0.0, condims=(3, 4, 6, 1), cones=("pyramidal", "elliptic"), solvers=("Newton", "CG"), jacobians=("dense", "sparse")
+    nbody=(3, 7), collide=True, contact_rich=True, p_plane=1.0, p_free=1.0, p_branch=0.0, condims=(3, 4, 6, 1), cones=("pyramidal", "elliptic"), solvers=("Newton", "CG"), jacobians=("dense", "sparse"), p_surfacevel=0.3
   ),
   "joints": gen.profile(
     nbody=(3, 9),
@@ -62,6 +65,8 @@ PROFILES = {
     solvers=("Newton", "CG"),
     jacobians=("dense", "sparse"),
     integrators=("Euler", "implicitfast", "RK4", "implicit"),
+    p_poly=0.5,
+    p_actfrcrange=0.3,
   ),
 }
 
